@@ -361,7 +361,7 @@ where
     N: RealField + FromPrimitive + Copy,
     F: FnMut(N) -> N,
 {
-    if !tol.is_sign_positive() {
+    if !tol.is_sign_positive() || tol.is_zero() {
         return Err("brent: tolerance must be positive".to_owned());
     }
 
@@ -463,7 +463,7 @@ where
     N: RealField + FromPrimitive + Copy,
     F: FnMut(N) -> N,
 {
-    if !tol.is_sign_positive() {
+    if !tol.is_sign_positive() || tol.is_zero() {
         return Err("itp: tolerance must be positive".to_owned());
     }
 
